@@ -79,6 +79,8 @@ type scenario struct {
 	// DocBlockSize: SealParams.DocBlockSize of the store (0 = the default 4 MiB); small values give sealed
 	// fractions many docs blocks
 	DocBlockSize int `json:"doc_block_size,omitempty"`
+	// SkipSortDocs: frac.Config.SkipSortDocs (sealing keeps the active fraction's docs file instead of writing a sorted one)
+	SkipSortDocs bool `json:"skip_sort_docs,omitempty"`
 }
 
 // docBytes is the document ingested under (mid, rid) with the given size (>= 2): valid JSON, content unique per
@@ -138,6 +140,7 @@ func newStore(sc *scenario) (*store, error) {
 		ShouldReplay: false,
 		DataDir:      dir,
 		SealParams:   frac.SealParams{DocBlockSize: sc.DocBlockSize},
+		Fraction:     frac.Config{SkipSortDocs: sc.SkipSortDocs},
 	})
 	if err := fm.Load(context.Background()); err != nil {
 		return nil, err
@@ -616,6 +619,72 @@ func genRequest(r *vh.RNG, fs []fracSpec, n, pctAbsent int, classes []string, hi
 	return request{Class: cls, IDs: ids}
 }
 
+// genSegmentedRequest: a request of more than 1000 distinct IDs without hints built from segments, each segment
+// drawing (mostly present) IDs from its own subset of the fractions.  The first segment fills the first chunk
+// (initChunkSize = 1000); variant 0: first segment from the oldest and the newest fraction only (its time range
+// covers every fraction but one gets no ID), then a segment from the skipped ones; variant 1: first segment from the
+// newest fraction only, then the older ones; other variants: random subsets.  IDs inside a segment are shuffled, so
+// the extreme IDs of a chunk are rarely its first or last.
+func genSegmentedRequest(r *vh.RNG, fs []fracSpec, variant int) request {
+	k := len(fs)
+	var subsets [][]int
+	switch variant {
+	case 0:
+		var mid []int
+		for i := 1; i < k-1; i++ {
+			mid = append(mid, i)
+		}
+		subsets = [][]int{{0, k - 1}, mid}
+	case 1:
+		var older []int
+		for i := 0; i < k-1; i++ {
+			older = append(older, i)
+		}
+		subsets = [][]int{{k - 1}, older}
+	default:
+		for s := 0; s < 2+r.Intn(3); s++ {
+			var sub []int
+			for i := 0; i < k; i++ {
+				if r.Bool() {
+					sub = append(sub, i)
+				}
+			}
+			if len(sub) == 0 {
+				sub = []int{r.Intn(k)}
+			}
+			subsets = append(subsets, sub)
+		}
+	}
+	seen := map[[2]uint64]bool{}
+	var ids []reqID
+	for si, sub := range subsets {
+		want := 150 + r.Intn(400)
+		if si == 0 {
+			want = storeapi.VerifC04InitChunkSize + r.Intn(150)
+		}
+		var seg []reqID
+		for tries := 0; len(seg) < want && tries < 30*want; tries++ {
+			f := &fs[sub[r.Intn(len(sub))]]
+			var id reqID
+			if tries < 12*want && r.Intn(10) > 0 {
+				d := f.Docs[r.Intn(len(f.Docs))]
+				id = reqID{MID: d.MID, RID: d.RID, Hint: -1}
+			} else { // absent, inside the fraction's range
+				from, to := f.borders()
+				id = reqID{MID: from + uint64(r.Intn(int(to-from+1))), RID: uint64(2*r.Intn(1_000_000) + 1), Hint: -1}
+			}
+			key := [2]uint64{id.MID, id.RID}
+			if seen[key] {
+				continue
+			}
+			seen[key] = true
+			seg = append(seg, id)
+		}
+		ids = append(ids, seg...)
+	}
+	return request{Class: fmt.Sprintf("segmented-by-fraction-subset variant=%d n=%s hints=0", min(variant, 2), bucket(len(ids))), IDs: ids}
+}
+
 func bucket(n int) string {
 	switch {
 	case n <= 1:
@@ -731,12 +800,23 @@ func genScenario(r *vh.RNG, name string, shape int, thorough bool) scenario {
 		rq := genRequest(r, sc.Fracs, 1500, 10, []string{"inside", "neighbour", "border-high", "above-all"}, false, orders[r.Intn(3)])
 		rq.Class = "same-ms-run-across-id-block " + rq.Class
 		sc.Reqs = append(sc.Reqs, rq)
+	case 7: // multi-chunk requests whose chunks touch different subsets of >= 3 fractions (the stream keeps one fraction list)
+		k := 3 + r.Intn(2)
+		sizes := small
+		if r.Intn(3) == 0 {
+			sizes = func() int { return 2000 + r.Intn(6000) } // large documents: later chunks shrink below 1000 ids
+		}
+		sc.Fracs = genFracs(r, k, 700, sizes, r.Bool())
+		for i := 0; i < 4; i++ {
+			sc.Reqs = append(sc.Reqs, genSegmentedRequest(r, sc.Fracs, i))
+		}
 	case 4: // 100k IDs, mostly absent, over one mid-sized fraction pair
 		sc.Fracs = genFracs(r, 2, 3000, func() int { return 200 + r.Intn(200) }, false)
 		sc.Reqs = append(sc.Reqs, genRequest(r, sc.Fracs, 100000, 95, []string{"inside", "above-all", "below-all"}, false, "random"))
 	}
 	// sealed fractions with one docs block (default) or many (small DocBlockSize): several seals in one process
 	sc.DocBlockSize = []int{0, 64, 300, 2000}[r.Intn(4)]
+	sc.SkipSortDocs = r.Intn(3) == 0 // the non-default sealing mode: the sealed fraction reads the active fraction's docs file
 	return sc
 }
 
@@ -754,6 +834,8 @@ func classify(res string, stderr string, died, timeout bool) (site, class string
 		return "storeapi/grpc_fetch.go:Fetch", "process-died"
 	case strings.HasPrefix(res, "error:") && strings.Contains(res, "fetch panicked on fraction") && strings.Contains(res, "index out of range"):
 		return "frac/sealed_index.go:findLIDs", "absent-id-below-all-stored"
+	case strings.HasPrefix(res, "error:") && strings.Contains(res, "can't fetch doc at pos"):
+		return "disk/docs_reader.go:ReadDocsFunc", "docs-block-read-failed"
 	case strings.HasPrefix(res, "error:"):
 		return "storeapi/grpc_fetch.go:Fetch", "request-failed"
 	}
@@ -761,7 +843,7 @@ func classify(res string, stderr string, died, timeout bool) (site, class string
 }
 
 func scenarioLine(sc *scenario, only int) string {
-	c := scenario{Name: sc.Name, Fracs: sc.Fracs, DocBlockSize: sc.DocBlockSize}
+	c := scenario{Name: sc.Name, Fracs: sc.Fracs, DocBlockSize: sc.DocBlockSize, SkipSortDocs: sc.SkipSortDocs}
 	if only >= 0 {
 		c.Reqs = []request{sc.Reqs[only]}
 	} else {
@@ -794,7 +876,7 @@ func minimise(sc scenario, site, class string, budget int) scenario {
 				}
 			}
 		}
-		return &scenario{Name: sc.Name, Fracs: fracs, DocBlockSize: sc.DocBlockSize, Reqs: []request{{Class: sc.Reqs[0].Class, IDs: ids, Late: late}}}
+		return &scenario{Name: sc.Name, Fracs: fracs, DocBlockSize: sc.DocBlockSize, SkipSortDocs: sc.SkipSortDocs, Reqs: []request{{Class: sc.Reqs[0].Class, IDs: ids, Late: late}}}
 	}
 	// 1. drop requested IDs
 	ids := sc.Reqs[0].IDs
@@ -1676,10 +1758,10 @@ func main() {
 	}
 	if run("fetch.stream") {
 		r := rng.Fork()
-		shapes := []int{0, 0, 0, 1, 1, 2, 3, 5, 6}
+		shapes := []int{0, 0, 0, 1, 1, 2, 3, 5, 6, 7, 7}
 		if o.Thorough() {
 			shapes = nil
-			for sh, n := range []int{60, 20, 8, 6, 2, 12, 6} {
+			for sh, n := range []int{60, 20, 8, 6, 2, 12, 6, 16} {
 				for i := 0; i < n; i++ {
 					shapes = append(shapes, sh)
 				}
